@@ -39,6 +39,7 @@ pub mod c08;
 pub mod c10;
 pub mod c11;
 pub mod c12;
+pub mod c13;
 pub mod c15;
 pub mod c17;
 pub mod c19;
@@ -56,6 +57,7 @@ pub fn get(id: &str) -> Option<PropDef> {
         "C10" => Some(c10::def()),
         "C11" => Some(c11::def()),
         "C12" => Some(c12::def()),
+        "C13" => Some(c13::def()),
         "C15" => Some(c15::def()),
         "C17" => Some(c17::def()),
         "C19" => Some(c19::def()),
